@@ -998,8 +998,18 @@ def directed_cascades(w, rng):
         own = rng.choice(ex)
         stages = [("everyone", [ch]), ("twice", [ch, own] if rng.random() < 0.5 else [own, ch])]
         out.append({"kind": "adhoc_dict", "arg": {nm: cons for nm, cons in stages}, "stages": stages, "directed": "charac+own-compartment"})
-    if len(w.data_labels) >= 2:
-        labs = rng.sample(w.data_labels, min(len(w.data_labels), rng.choice([2, 3])))
+    # databook constituents (numbers, not fractions) whose expansions are pairwise disjoint, so that the cascade is valid
+    pool = [c for c in w.data_labels if not has_denominator(fw, c) and expand_constituent(fw, c)]
+    rng.shuffle(pool)
+    labs, seen = [], set()
+    for c in pool:
+        ex = set(expand_constituent(fw, c))
+        if not (ex & seen) and len(ex) == len(expand_constituent(fw, c)):
+            labs.append(c)
+            seen |= ex
+        if len(labs) == 3:
+            break
+    if len(labs) >= 2:
         stages = [("s0", list(labs)), ("s1", [labs[0]])]
         out.append({"kind": "adhoc_dict", "arg": {nm: cons for nm, cons in stages}, "stages": stages, "directed": "first-constituent-recurs"})
     return out
